@@ -41,6 +41,9 @@ pub struct TxContext {
     pub own_addrs: Option<Vec<Ip>>,
     /// IP protocol numbers used only by the harness' raw sockets (exempt from the source rule)
     pub raw_protocols: Vec<u8>,
+    /// 6LoWPAN address contexts of the interface at emission time (index = context id);
+    /// None = unknown (frames compressed with a context are then not judged)
+    pub lowpan_ctxs: Option<Vec<[u8; 8]>>,
 }
 
 /// One violation: (stable key, message)
